@@ -35,7 +35,9 @@ def monitorConn (a : OpInst) (cut : Bool) (impl : String) : Option Bool :=
   match words impl with
   | [res, next, deliver] =>
     let base := (deliver == "-" || deliver == "prefix") && res != "panic" && res != "hang"
-    if cut then some (base && (isFailStr res || res.startsWith "kafka:") && isFailStr next)
+    -- a cut response is a non-kafka error — also when the error code had arrived before the cut: what is left of the
+    -- frame cannot be skipped (cut_is_error, fetch_cut_is_error: fail ∧ closed)
+    if cut then some (base && isFailStr res && isFailStr next)
     else (specJudge a res).map (fun okA => base && okA && isDone res)     -- full frame: judged as in C11
   | _ => some false
 
@@ -68,8 +70,8 @@ def monitorTwo (a b : OpInst) (k : Nat) (impl : String) : Bool :=
     let la := a.body.length + 8
     let lb := b.body.length + 8
     isDone ra && isDone rb &&
-    (if k < la then isFailStr ra || ra.startsWith "kafka:" else !isFailStr ra || (specJudge a ra).isNone) &&
-    (if k < la + lb then isFailStr rb || rb.startsWith "kafka:" else true)
+    (if k < la then isFailStr ra else !isFailStr ra || (specJudge a ra).isNone) &&
+    (if k < la + lb then isFailStr rb else true)
   | _ => false
 
 /-! Transport path -/
